@@ -86,4 +86,34 @@ def fcRatelimitReturnsExpected : String :=
 set_option maxRecDepth 16384 in
 theorem fc_ratelimit_returns_src : fc_ratelimit_returns = fcRatelimitReturnsExpected := by decide
 
+/-! ## Round 4: the front of the middleware and the production wiring -/
+
+/-- `Wrap`: a request stopped by the device result and a request with a malformed ECS option are
+finished by `serveDeviceErr` / `serveLocationErr`; everything else goes to `serveWithRatelimiting`. -/
+def wrapReturnsExpected : String :=
+  "nil | nil | mw.serveDeviceErr(ctx, rw, req, ri, err) | mw.serveLocationErr(ctx, rw, req, ri, locErr) | mw.serveWithRatelimiting(ctx, rw, req, ri, next) | dnsserver.HandlerFunc(f)"
+set_option maxRecDepth 16384 in
+theorem wrap_returns_src : wrap_returns = wrapReturnsExpected := by decide
+/-- `serveDeviceErr`: no error ⇒ dropped; otherwise the error is what the `next` handler returns, and
+that handler is run by `serveWithRatelimiting` (model: `FReq.inner`, `.devErr`). -/
+theorem device_err_returns_src :
+    device_err_returns = "nil | devErr | mw.serveWithRatelimiting(ctx, rw, req, ri, h)" := by decide
+def locationErrReturnsExpected : String :=
+  "mw.processLocationErr(ctx, rw, req, locErr) | mw.serveWithRatelimiting(ctx, rw, req, ri, h)"
+set_option maxRecDepth 16384 in
+theorem location_err_returns_src : location_err_returns = locationErrReturnsExpected := by decide
+/-- `dnssvc.newHandlersForServers`: every server of every server group gets the one global limiter, and
+plain DNS is the only rate-limited protocol. -/
+def handlersMwConfigExpected : String :=
+  "&ratelimitmw.Config{ Logger: rlMwLogger, Messages: c.Messages, FilteringGroup: fltGrp, ServerGroup: srvGrp, Server: srv, StructuredErrors: c.StructuredErrors, AccessManager: c.AccessManager, DeviceFinder: newDeviceFinder(c, srvGrp, srv), ErrColl: c.ErrColl, GeoIP: c.GeoIP, Metrics: rlMwMtrc, Limiter: c.RateLimit, Protocols: []agd.Protocol{agd.ProtoDNS}, EDEEnabled: c.EDEEnabled, }"
+set_option maxRecDepth 16384 in
+theorem handlers_mw_config_src : handlers_mw_config = handlersMwConfigExpected := by decide
+/-- `cmd`: the profiles' limiters weigh responses by the same `response_size_estimate` as the global one. -/
+theorem builder_profile_resp_size_src :
+    builder_profile_resp_size = "b.conf.RateLimit.ResponseSizeEstimate" := by decide
+/-- `cmd`: the backend updater for type `backend`, the consul updater otherwise; every failure,
+including that of the initial refresh, stops the start-up. -/
+theorem builder_allowlist_type_cond_src : builder_allowlist_type_cond =
+    "err != nil | typ == rlAllowlistTypeBackend | err != nil | err != nil | err != nil" := by decide
+
 end Agd.Tie.C09
